@@ -1,7 +1,8 @@
 (* Extraction of the executable model to OCaml (ExtrOcamlBasic only;
    Z, positive, nat stay Coq datatypes; no Extract Constant). *)
 From Coq Require Import Extraction ExtrOcamlBasic.
-From SSL.Model Require Import Base Ty Float Value Ops Seq Syntax Rt Recreate Exec Check Top.
+From SSL.Model Require Import Base Ty Float Value Ops Seq Syntax Rt Recreate Exec Check Top Peg.
+From SSL.Gen Require Import GenGrammar.
 Extraction Blacklist List String Int.
 Extraction "model.ml"
   ident_eqb all2 assoc wrap64 in_i64b
@@ -14,4 +15,5 @@ Extraction "model.ml"
   op_exec unop_exec assign_base can_be_used_int can_be_used_num can_be_used_add can_be_used_bit
   add_return_type
   len_exec at_exec slyce_indices py_slice slice_exec
-  rt recreate exec check_x check_s check_lines parse_top run_code code_rt mkPrelude mkReducers mkStore mkClosure mkLayer.
+  rt recreate exec check_x check_s check_lines parse_top run_code code_rt mkPrelude mkReducers mkStore mkClosure mkLayer
+  peg_run fuel_for parse_rule grammar rule_names.
